@@ -66,6 +66,8 @@ func main() {
 		cmdDcache(fs, os.Args[2:])
 	case "atxn":
 		cmdAtxn(fs, os.Args[2:])
+	case "initattr":
+		cmdInitAttr(fs, os.Args[2:])
 	case "probe":
 		cmdProbe(fs, os.Args[2:])
 	case "simpleconc":
